@@ -197,6 +197,68 @@ theorem supports_iff {α : Type} (m : Mix α Ob) (x : Ob) :
 example : supports (⟨[⟨1/2⟩, ⟨1/2⟩], [exCompNoMean, exComp ⟨1⟩ ⟨9⟩]⟩ : Mix R Unit) () = true :=
   (supports_iff _ _).mpr ⟨exComp ⟨1⟩ ⟨9⟩, by simp, rfl⟩
 
+/-! ## (a') existence of the moments, on EVERY carrier (binary64 included), whatever the weights -/
+
+theorem meanFold_none_iff {α : Type} [RealLike α] (ps : List (α × Comp α Ob)) (s : α) :
+    tryFoldO (fun grand (p : α × Comp α Ob) => p.2.mean.map (fun mu => mulAdd p.1 mu grand)) s ps = none ↔
+      ∃ p ∈ ps, p.2.mean = none := by
+  induction ps generalizing s with
+  | nil => simp [tryFoldO]
+  | cons p t ih =>
+    cases hm : p.2.mean with
+    | none => simp [tryFoldO, hm]
+    | some mu => simp [tryFoldO, hm, ih]
+
+theorem varFold_none_iff {α : Type} [RealLike α] (ps : List (α × Comp α Ob)) (st : α × α × α) :
+    tryFoldO varStep st ps = none ↔ ∃ p ∈ ps, p.2.mean = none ∨ p.2.variance = none := by
+  induction ps generalizing st with
+  | nil => simp [tryFoldO]
+  | cons p t ih =>
+    cases hm : p.2.mean with
+    | none => simp [tryFoldO, varStep, hm]
+    | some mu =>
+      cases hv : p.2.variance with
+      | none => simp [tryFoldO, varStep, hm, hv]
+      | some v => simp [tryFoldO, varStep, hm, hv, ih]
+
+-- @site Mixture::mean
+/-- existence clause of the mean, as coded (`try_fold`, mixture.rs:504-513): `None` iff some paired component has no
+    mean — WHATEVER ITS WEIGHT (a zero-weight Cauchy-like component makes the mean `None`) — on every carrier -/
+theorem mean_isNone_iff {α : Type} [RealLike α] (m : Mix α Ob) :
+    mean m = none ↔ ∃ p ∈ pairs m, p.2.mean = none := by
+  unfold mean; exact meanFold_none_iff _ _
+
+-- @site Mixture::variance
+/-- existence clause of the variance, as coded (mixture.rs:521-542): `None` iff some paired component lacks a mean OR
+    a variance — whatever its weight, zero included — and `Some` otherwise; on every carrier.  (A component whose
+    variance is `None` must not be skipped: a mixture containing a StudentsT with `v ≤ 2` has no variance.) -/
+theorem variance_isNone_iff {α : Type} [RealLike α] (m : Mix α Ob) :
+    variance m = none ↔ ∃ p ∈ pairs m, p.2.mean = none ∨ p.2.variance = none := by
+  unfold variance
+  rw [Option.map_eq_none_iff]
+  exact varFold_none_iff _ _
+
+/-- a zero-weight component without variance (InvGamma with shape 1.5) makes the variance `None` -/
+example : variance (⟨[fin 0, fin 1], [momentComp (some (fin 2)) none, momentComp (some (fin 1)) (some (fin 1))]⟩ : Mix X Unit)
+    = none :=
+  (variance_isNone_iff _).mpr ⟨(fin 0, momentComp (some (fin 2)) none), by simp [pairs], Or.inr rfl⟩
+example : mean (⟨[fin 0, fin 1], [momentComp none none, momentComp (some (fin 1)) (some (fin 1))]⟩ : Mix X Unit) = none :=
+  (mean_isNone_iff _).mpr ⟨(fin 0, momentComp none none), by simp [pairs], rfl⟩
+
+-- @site Mixture::variance
+/-- … and when every paired component has both moments the variance exists -/
+theorem variance_isSome {α : Type} [RealLike α] (m : Mix α Ob)
+    (h : ∀ p ∈ pairs m, p.2.mean ≠ none ∧ p.2.variance ≠ none) : (variance m).isSome = true := by
+  rw [Option.isSome_iff_ne_none, Ne, variance_isNone_iff]
+  rintro ⟨p, hp, hn⟩
+  rcases hn with hn | hn
+  · exact (h p hp).1 hn
+  · exact (h p hp).2 hn
+
+example : (variance (⟨[fin (1/2), fin (1/2)], [momentComp (some (fin 0)) (some (fin 1)), momentComp (some (fin 3)) (some (fin 2))]⟩ :
+    Mix X Unit)).isSome = true :=
+  variance_isSome _ (by intro p hp; simp [pairs] at hp; rcases hp with rfl | rfl <;> simp [momentComp])
+
 /-! ## (b) one component with weight 1: every query equals the component's -/
 
 -- @site Mixture::f
@@ -1048,6 +1110,47 @@ example : validateWeights [fin (1/4), X.pinf] ≠ .ok () := by
   obtain ⟨a, ha, _⟩ := h X.pinf (by simp)
   cases ha
 
+/-! ## (g') the downward sweep of `count_entropy_range` (entropy of `Mixture<Poisson>`) -/
+
+-- @site count_entropy_range
+/-- misc/entropy.rs:14-23 on exact reals: started at `left` with enough fuel, the downward sweep stops at some
+    `stop ≤ lower` (and `≤ left`) and has then subtracted `f(x) ln f(x)` for EVERY `x` of `[stop, left]` — in
+    particular for the whole range `[lower, mid]` between the smallest component mean and the start point, however small
+    the mass in between (the guard must compare with `lower`, not with `mid`) -/
+theorem leftLoop_covers (lnF : Nat → R) (lower fuel left : Nat) (h : R) (hf : left < fuel) :
+    ∃ stop, stop ≤ left ∧ stop ≤ lower ∧
+      (Hand.C08.leftLoop lnF lower fuel left h).val =
+        h.val - ((List.range' stop (left + 1 - stop)).map
+          (fun x => Real.exp (lnF x).val * (lnF x).val)).sum := by
+  induction fuel generalizing left h with
+  | zero => exact absurd hf (Nat.not_lt_zero _)
+  | succ n ih =>
+    unfold Hand.C08.leftLoop
+    by_cases hc : (left == 0 || (decide (left ≤ lower) && RealLike.lt (RealLike.exp (lnF left)) (1e-16 : R))) = true
+    · refine ⟨left, le_refl _, ?_, ?_⟩
+      · simp only [Bool.or_eq_true, beq_iff_eq, Bool.and_eq_true, decide_eq_true_eq] at hc
+        rcases hc with h0 | ⟨h1, _⟩
+        · omega
+        · exact h1
+      · simp only [hc, if_true]
+        have : left + 1 - left = 1 := by omega
+        simp [this, R.sub_val, R.mul_val, R.exp_val]
+    · simp only [hc, Bool.false_eq_true, if_false]
+      have h0 : left ≠ 0 := by
+        intro e; apply hc; simp [e]
+      obtain ⟨stop, h1, h2, h3⟩ := ih (left - 1) (h - RealLike.exp (lnF left) * lnF left) (by omega)
+      refine ⟨stop, by omega, h2, ?_⟩
+      rw [h3, R.sub_val, R.mul_val, R.exp_val]
+      have e : left + 1 - stop = (left - 1 + 1 - stop) + 1 := by omega
+      have e2 : stop + 1 * (left - 1 + 1 - stop) = left := by omega
+      rw [e, List.range'_concat, List.map_append, List.sum_append, e2]
+      simp
+      ring
+
+example : ∃ stop, stop ≤ 3 ∧ stop ≤ 1 ∧ (Hand.C08.leftLoop (fun _ => (⟨-1⟩ : R)) 1 5 3 ⟨0⟩).val =
+    (0 : ℝ) - ((List.range' stop (3 + 1 - stop)).map (fun _ => Real.exp (-1) * (-1))).sum :=
+  leftLoop_covers _ 1 5 3 ⟨0⟩ (by norm_num)
+
 /-! ## (h) the drawn component index (range; the law is in Props/C11B.lean) -/
 
 -- @site Mixture::draw
@@ -1108,6 +1211,10 @@ end C11
 #print axioms C11.variance_eq
 #print axioms C11.variance_none_iff
 #print axioms C11.supports_iff
+#print axioms C11.mean_isNone_iff
+#print axioms C11.variance_isNone_iff
+#print axioms C11.variance_isSome
+#print axioms C11.leftLoop_covers
 #print axioms C11.single_f
 #print axioms C11.single_cdf
 #print axioms C11.single_pdf
